@@ -54,6 +54,11 @@ def unflatten(shape, toks):
     k = shape[0]
     if k == "agg":
         return symex.Agg([unflatten(s, toks) for s in shape[1]])
+    if k == "ok":
+        d = toks.pop(0)
+        if d != 0:
+            raise NativePanic("native call returned Err where the encoding has a plain value")
+        return unflatten(shape[1], toks)
     if k == "result":
         d = toks.pop(0)
         if d == 0:
@@ -118,9 +123,9 @@ def build_native(profiles=("dev", "release")):
 class SymIO:
     kind = "sym"
 
-    def __init__(self, name, mode="debug", unroll=1, timeout=120, cross_check=True, max_paths=4000):
+    def __init__(self, name, mode="debug", unroll=1, timeout=120, cross_check=True, max_paths=4000, generics=None):
         self.s = session.Session(name, mode=mode, unroll=unroll, timeout=timeout, cross_check=cross_check,
-                                 max_paths=max_paths)
+                                 max_paths=max_paths, generics=generics)
         self.mode = mode
 
     def int(self, name, ty, lo=None, hi=None):
@@ -188,6 +193,8 @@ class NatIO:
         if native is None:
             raise RuntimeError("spec call without native binding: %r" % (target,))
         hook, shape = native[0], native[1]
+        if hook == "skip":
+            return shape            # intermediate value supplied by the spec; the real call happens in a later hook
         nargs = native[2] if len(native) > 2 else args
         ints = []
         for a in nargs:
@@ -264,10 +271,10 @@ class ValIO:
     """translator validation: each call runs through the MIR executor on concrete inputs and natively"""
     kind = "val"
 
-    def __init__(self, vector, profile="dev"):
+    def __init__(self, vector, profile="dev", generics=None):
         self.vector = vector
         self.m = Mrun(profile)
-        self.s = session.Session("val", cross_check=False)
+        self.s = session.Session("val", cross_check=False, generics=generics)
         self.mismatches = []
         self.calls = 0
         self.mode = "debug"
@@ -300,6 +307,8 @@ class ValIO:
         if any(is_c(c) and c for (_k, _l, c) in self.s.ex.obligations[nobl:]):
             enc_panic = True
         hook, shape = native[0], native[1]
+        if hook == "skip":
+            return enc
         nargs = native[2] if len(native) > 2 else args
         ints = []
         for a in nargs:
@@ -332,11 +341,11 @@ class ValIO:
         return []
 
 
-def validate(spec_fn, params, vectors):
+def validate(spec_fn, params, vectors, generics=None):
     """-> (calls compared, mismatches list)"""
     calls, mism = 0, []
     for vec in vectors:
-        io = ValIO(vec)
+        io = ValIO(vec, generics=generics)
         try:
             spec_fn(io, **params)
         except NativePanic:
